@@ -40,12 +40,13 @@ Zero == <<0, 1>>
 One == <<1, 1>>
 
 (* ---------- abstract values ---------- *)
-Aff(a, b) == [k |-> "aff", a |-> a, b |-> b, s |-> "unk", es |-> "none"]
-Sgn(s, es) == [k |-> "sgn", a |-> Zero, b |-> Zero, s |-> s, es |-> es]
+Aff(a, b) == [k |-> "aff", a |-> a, b |-> b, s |-> "unk", es |-> "none", cst |-> FALSE]
+Sgn(s, es) == [k |-> "sgn", a |-> Zero, b |-> Zero, s |-> s, es |-> es, cst |-> FALSE]
 ValAt(x, av) == RAdd(RMul(av.a, x), av.b)                 \* value of an affine form at the sample x
 SignAt(x, av) == IF av.k = "aff" THEN RSign(ValAt(x, av)) ELSE av.s
 Bad(s) == s \in {"nan", "inf"}
-IsConst(av) == av.k = "aff" /\ av.a = Zero
+\* constant on the whole cell: an affine form of slope 0, or a node all of whose arguments are constant
+IsConst(av) == (av.k = "aff" /\ av.a = Zero) \/ (av.k = "sgn" /\ av.cst)
 
 Flip(s) == CASE s = "neg" -> "pos" [] s = "pos" -> "neg" [] OTHER -> s
 MulS(s, t) == IF s = "nan" \/ t = "nan" THEN "nan"
@@ -67,7 +68,7 @@ AddS(s, t) == IF s = "nan" \/ t = "nan" THEN "nan"
 ArgVal(env, arg) == IF "var" \in DOMAIN arg THEN env[arg.var + 1] ELSE Aff(Zero, <<arg.const[1], arg.const[2]>>)
 
 (* one SSA node evaluated on the cell whose sample point is x *)
-EvalNode(env, node, x) ==
+EvalNode0(env, node, x) ==
   LET A == ArgVal(env, node.args[1])
       B == IF Len(node.args) > 1 THEN ArgVal(env, node.args[2]) ELSE A
       sA == SignAt(x, A)  sB == SignAt(x, B)
@@ -104,6 +105,11 @@ EvalNode(env, node, x) ==
        [] node.op = "pow3" -> Sgn(MulS(sA, MulS(sA, sA)), "none")
        [] node.op = "pow4" -> Sgn(MulS(MulS(sA, sA), MulS(sA, sA)), "none")
        [] OTHER -> Sgn("unk", "none")            \* select_n, comparisons, expm1, ...: undecided abstractly
+
+EvalNode(env, node, x) ==
+  LET r == EvalNode0(env, node, x)
+      allc == \A i \in 1..Len(node.args) : IsConst(ArgVal(env, node.args[i]))
+  IN IF r.k = "sgn" THEN [r EXCEPT !.cst = allc] ELSE r
 
 RECURSIVE Run(_, _, _, _)
 Run(env, nodes, i, x) == IF i > Len(nodes) THEN env
